@@ -17,7 +17,7 @@ M=[
 ("M11-c13-done-before-row","C13","result writer signals completion before writing the row",[("tools/rddetector/main.go","	for r := range in {\n		_, _ = w.Write([]byte(r.Name))","	for r := range in {\n		wg.Done()\n		_, _ = w.Write([]byte(r.Name))"),("tools/rddetector/main.go","		_, _ = w.Write([]byte(\"\\n\"))\n		wg.Done()\n","		_, _ = w.Write([]byte(\"\\n\"))\n")]),
 ("M12-c20-done-before-write","C20","rdgen worker signals completion before writing the file",[("tools/rdgen/main.go","		_, err = w.Write(buf)\n		_ = w.Close()\n		wg.Done()","		wg.Done()\n		_, err = w.Write(buf)\n		_ = w.Close()")]),
 ("M13-c18-shared-matrix","C18","matrix-rank scratch matrix hoisted to package level",[("matrix_rank.go","	var matrix = make([][]int, 32)\n	for i := 0; i < 32; i++ {\n		matrix[i] = make([]int, 32)\n	}\n","	matrix := rankScratch\n"),("matrix_rank.go","// MatrixRankProto","var rankScratch = func() [][]int {\n	m := make([][]int, 32)\n	for i := range m {\n		m[i] = make([]int, 32)\n	}\n	return m\n}()\n\n// MatrixRankProto")]),
-("M14-c18-derivative-in-place","C18","binary derivative computed in place on the caller's slice",[("binary_derivative.go","	_bits := make([]bool, len(bits))\n	copy(_bits, bits)\n","	_bits := bits\n")]),
+("M14-c18-derivative-in-place","C18","binary derivative computed in place on the caller's slice for samples of 20000 bits and more",[("binary_derivative.go","	_bits := make([]bool, len(bits))\n	copy(_bits, bits)\n","	_bits := bits\n	if n < 20000 {\n		_bits = make([]bool, len(bits))\n		copy(_bits, bits)\n	}\n")]),
 ("M15-c11-boundary-320","C11","SingleDetect uses m=2 up to and including 320 bits",[("detect/detect.go","	if n < 320 {\n		m = 2","	if n <= 320 {\n		m = 2")]),
 ("M16-c09-single-swallows-eof","C09","SingleDetect ignores io.EOF / unexpected EOF from the source",[("detect/detect.go","	_, err := io.ReadFull(source, data)\n	if err != nil {\n		return false, err\n	}\n	n := len(data) * 8","	_, err := io.ReadFull(source, data)\n	if err != nil && err != io.EOF && err != io.ErrUnexpectedEOF {\n		return false, err\n	}\n	n := len(data) * 8")]),
 ("M17-c14-fast-error-lost","C14","PowerOnDetectFast reports a failed pass count as (false, nil)",[("detect/detect_fast.go","	fmt.Println(counters)\n\n	for i, itemCnt := range counters {\n		if int(itemCnt) < t {\n			return false, fmt.Errorf(\"%s %d/%d\", randomness.TestMethodArr[i].Name, itemCnt, s)","	fmt.Println(counters)\n\n	for _, itemCnt := range counters {\n		if int(itemCnt) < t {\n			return false, nil")]),
